@@ -38,7 +38,8 @@ def law_cases(ctx: Ctx, masked: bool):
                 for via in ("probs", "logits") + (("logits_forbidden_dominant",) if masked and not all(m) and len(cases) % 3 == 0 else ()):
                     cases.append(("cat", (w, m, via, keys)))
     for n in (2, 3):
-        for a in list(itertools.product([1, 2, 3], repeat=n))[:ctx.pick(4, 27)]:
+        # (quarters) interior probabilities, and components that are certain (probability 0 or 1) before masking
+        for a in list(itertools.product([1, 2, 3], repeat=n))[:ctx.pick(4, 27)] + ([(4, 0), (0, 4)] if n == 2 else [(4, 0, 3), (4, 4, 1), (0, 0, 2)]):
             masks = list(dl.all_masks(n, nonempty=False)) if masked else [[True] * n]
             for m in masks:
                 cases.append(("bern", (a, m, keys)))
